@@ -32,9 +32,12 @@ pub fn boundary_prefixes(row_lens: &[usize], header: usize) -> Vec<usize> {
 
 /// Record ids are part of the input: a third of the record lists (chosen by their content, so that a replay
 /// writes the same file) give every record the same id, a third use two ids alternately, the rest unique ids.
-pub fn rec_id(records: &[Vec<u8>], i: usize) -> String {
-    let h = records.len() + records.iter().map(|r| r.len()).sum::<usize>();
-    match h % 3 {
+pub fn id_policy(records: &[Vec<u8>]) -> usize {
+    (records.len() + records.iter().map(|r| r.len()).sum::<usize>()) % 3
+}
+
+pub fn rec_id_with(policy: usize, i: usize) -> String {
+    match policy {
         0 => format!("r{}", i),
         1 => "same".to_string(),
         _ => format!("r{}", i % 2),
@@ -102,8 +105,9 @@ pub fn repeating_records() -> Vec<Vec<u8>> {
 
 pub fn write_fasta(path: &str, records: &[Vec<u8>]) {
     let mut data: Vec<u8> = Vec::new();
+    let policy = id_policy(records);
     for (i, r) in records.iter().enumerate() {
-        data.extend_from_slice(format!(">{}\n", rec_id(records, i)).as_bytes());
+        data.extend_from_slice(format!(">{}\n", rec_id_with(policy, i)).as_bytes());
         data.extend_from_slice(r);
         data.push(b'\n');
     }
@@ -1236,7 +1240,9 @@ pub fn c12_record_sets() -> Vec<(&'static str, Vec<Vec<u8>>)> {
 }
 
 pub fn c12(ctx: &mut Ctx) {
+    ctx.lap("start");
     cgr_reuse(ctx, true);
+    ctx.lap("c12.reuse");
     let sizes = [1usize, 3, 4, 16, 49, 1000, 65_536, (1 << 20) - 1, 1 << 20];
     let small: Vec<Vec<u8>> = strings(S5, 0, ctx.pick(6, 8));
     let ps = strings(S5, 0, 2);
@@ -1281,6 +1287,7 @@ pub fn c12(ctx: &mut Ctx) {
             }
         }
     }
+    ctx.lap("c12.per_record");
     // long records
     for (len, seed) in [(4097usize, 1u64), (20_000, 3), (70_000, 4)] {
         let s = crate::iters::long_input(len, seed);
@@ -1299,6 +1306,7 @@ pub fn c12(ctx: &mut Ctx) {
             }
         }
     }
+    ctx.lap("c12.long");
     // one record with more than 2^24 windows (in one column; spread over three columns)
     for unit in [&b"A"[..], b"ACG"] {
         for norm in [true, false] {
@@ -1322,7 +1330,9 @@ pub fn c12(ctx: &mut Ctx) {
     // file path
     let mut sh = ctx.shard;
     let mut nf = 0u64;
+    ctx.lap("c12.huge");
     let sets = c12_record_sets();
+    ctx.lap("c12.sets");
     // outputs whose size is exactly a multiple of 4 KiB / 8 KiB / 64 KiB (and one row less, one more)
     {
         let pool = &sets.iter().find(|(t, _)| *t == "twenty-thousand").unwrap().1;
@@ -1341,6 +1351,7 @@ pub fn c12(ctx: &mut Ctx) {
             }
         }
     }
+    ctx.lap("c12.boundary_prefixes");
     for (tag, recs) in &sets {
         if *tag == "twenty-thousand" || *tag == "fixed-rows" {
             continue;
@@ -1358,6 +1369,7 @@ pub fn c12(ctx: &mut Ctx) {
             }
         }
     }
+    ctx.lap("c12.file_sets");
     let pool = &sets[3].1;
     for nrec in (0..=40usize).chain([63, 64, 65, 127, 129]) {
         for threads in (1..=8usize).chain([16]) {
@@ -1369,6 +1381,7 @@ pub fn c12(ctx: &mut Ctx) {
             }
         }
     }
+    ctx.lap("c12.count_lattice");
     {
         let pool20 = &sets.iter().find(|(t, _)| *t == "twenty-thousand").unwrap().1;
         for &nrec in crate::enumr::POW2_COUNTS.iter() {
@@ -1379,6 +1392,7 @@ pub fn c12(ctx: &mut Ctx) {
                 }
             }
         }
+        ctx.lap("c12.pow2");
         // rows of one fixed length (records whose counts all have one digit): outputs of exactly 4 KiB ... 1 MiB
         let fixed = &sets.iter().find(|(t, _)| *t == "fixed-rows").unwrap().1;
         let l0 = {
@@ -1396,6 +1410,7 @@ pub fn c12(ctx: &mut Ctx) {
             }
         }
     }
+    ctx.lap("c12.pow2_and_fixed_rows");
     ctx.rep.count("cases.file_runs", nf);
     if ctx.shard.is_first() {
         ctx.rep.sample("per-record: \"ACGTN\" k=2 S=16: column AC at the CGR end point of \"AC\" = (2,10), f = oligo value of AC".to_string());
